@@ -140,4 +140,18 @@ def prepareHolders (perColumn : Bool) (isField : List Bool) : List Nat :=
   if perColumn then List.range isField.length
   else (List.range isField.length).zip isField |>.map (fun p => if p.2 then p.1 else isField.length)
 
+/-! ## Count's expression for a single `Selects` entry (finding F7g) -/
+
+/-- finisher_api.go Count, `len(Selects) == 1`: `fields := strings.FieldsFunc(entry, utils.IsValidDBNameChar)` (runs of
+    name characters); under `len(fields) == 1 || (len(fields) == 3 && (strings.ToUpper(fields[1]) == "AS" ||
+    fields[1] == "."))` Count sends COUNT(<the WHOLE entry quoted as one column name>) -/
+def isAS (f : String) : Bool := f == "AS" || f == "as" || f == "As" || f == "aS"   -- strings.ToUpper(f) == "AS"
+
+def countsWholeString (fields : List String) : Bool :=
+  fields.length == 1 || (fields.length == 3 && (isAS (fields.getD 1 "") || fields.getD 1 "" == "."))
+
+/-- the column NAME Count quotes for a single Selects entry (`none`: the expression stays `count(*)`) -/
+def countColumn (entry : String) (fields : List String) : Option String :=
+  if countsWholeString fields then some entry else none
+
 end Gorm.ReadSelect
